@@ -186,6 +186,9 @@ func c02() {
 					// block-granular root cause: the store's expiration list left the linear discipline
 					return &bfs.Violation{Signature: m.Signature(), What: fmt.Sprintf("%s: after %v: expiration list at height %d differs from a linear node's at intermediate tip %s (%s)", u.Describe(), histStrings(hist), m.Height, m.Tip, m.Signature())}, true
 				}
+				if cr := n.Obs.CoreRevert; cr != "" {
+					return &bfs.Violation{Signature: "c02:proofs-after-revert:block-revises-and-resolves-one-v1-contract", What: fmt.Sprintf("%s: after %v: %s", u.Describe(), histStrings(hist), cr)}, true
+				}
 				if err := n.Audit(); err != nil {
 					return &bfs.Violation{Signature: "c02:audit", What: fmt.Sprintf("%s: after %v: %v", u.Describe(), histStrings(hist), err)}, true
 				}
